@@ -18,7 +18,7 @@ from typing import TYPE_CHECKING, Any, TypeVar
 
 from ._typing import F
 from .errors import DimensionalityError
-from .util import UnitsContainer, to_units_container
+from .util import ParserHelper, UnitsContainer, to_units_container
 
 if TYPE_CHECKING:
     from ._typing import Quantity, Unit
@@ -68,7 +68,11 @@ def _to_units_container(a, registry=None):
 
     """
     if isinstance(a, str) and "=" in a:
-        return to_units_container(a.split("=", 1)[1]), True
+        expression = a.split("=", 1)[1]
+        if registry is not None:
+            # the names are references, not units: parse only, in the registry's number type
+            return ParserHelper.from_string(expression, registry.non_int_type), True
+        return to_units_container(expression), True
     return to_units_container(a, registry), False
 
 
@@ -142,7 +146,7 @@ def _parse_wrap_args(args, registry=None):
             assert _replace_units(args_as_uc[ndx][0], values_by_name) is not None
             values[ndx] = ureg._convert(
                 getattr(value, "_magnitude", value),
-                getattr(value, "_units", UnitsContainer({})),
+                getattr(value, "_units", ureg.UnitsContainer({})),
                 _replace_units(args_as_uc[ndx][0], values_by_name),
             )
 
